@@ -260,6 +260,10 @@ func (r *rewriter) walk(n ast.Node) {
 		return
 	}
 	switch x := n.(type) {
+	case *ast.LabeledStmt:
+		if _, ok := x.Stmt.(*ast.SelectStmt); ok {
+			r.errf(x.Pos(), "labelled select statement (the rewrite wraps the select in a block)")
+		}
 	case *ast.SelectStmt:
 		r.rewriteSelect(x)
 		return
@@ -364,6 +368,24 @@ func (r *rewriter) rewriteSelect(s *ast.SelectStmt) {
 	name := r.fresh("s")
 	hasDefault := false
 	var caseArgs []string
+	// channel operands (and send values that contain a call) are evaluated exactly once, in source order, on
+	// entering the select - as the language says - into temporaries declared in a block around the switch
+	var hoisted []string
+	hoist := func(expr string) string {
+		t := r.fresh("c")
+		hoisted = append(hoisted, fmt.Sprintf("%s := %s; ", t, expr))
+		return t
+	}
+	hasCall := func(e ast.Expr) bool {
+		found := false
+		ast.Inspect(e, func(n ast.Node) bool {
+			if _, ok := n.(*ast.CallExpr); ok {
+				found = true
+			}
+			return !found
+		})
+		return found
+	}
 	idx := 0
 	for _, c := range s.Body.List {
 		cc := c.(*ast.CommClause)
@@ -379,9 +401,13 @@ func (r *rewriter) rewriteSelect(s *ast.SelectStmt) {
 		case *ast.SendStmt:
 			r.walk(st.Chan)
 			r.walk(st.Value)
-			ch := r.renderNode(st.Chan)
+			ch := hoist(r.renderNode(st.Chan))
+			val := r.renderNode(st.Value)
+			if hasCall(st.Value) {
+				val = hoist(val)
+			}
 			caseArgs = append(caseArgs, fmt.Sprintf("vrt__.SendOf(%s)", ch))
-			header = fmt.Sprintf("case %d: %s <- %s; %s.After();", idx, ch, r.renderNode(st.Value), name)
+			header = fmt.Sprintf("case %d: %s <- %s; %s.After();", idx, ch, val, name)
 		case *ast.ExprStmt:
 			u, ok := isRecv(st.X)
 			if !ok {
@@ -389,7 +415,7 @@ func (r *rewriter) rewriteSelect(s *ast.SelectStmt) {
 				return
 			}
 			r.walk(u.X)
-			ch := r.renderNode(u.X)
+			ch := hoist(r.renderNode(u.X))
 			caseArgs = append(caseArgs, fmt.Sprintf("vrt__.RecvOf(%s)", ch))
 			header = fmt.Sprintf("case %d: vrt__.SelRecv(%s, %s);", idx, name, ch)
 		case *ast.AssignStmt:
@@ -403,7 +429,7 @@ func (r *rewriter) rewriteSelect(s *ast.SelectStmt) {
 				return
 			}
 			r.walk(u.X)
-			ch := r.renderNode(u.X)
+			ch := hoist(r.renderNode(u.X))
 			caseArgs = append(caseArgs, fmt.Sprintf("vrt__.RecvOf(%s)", ch))
 			var lhs []string
 			for _, l := range st.Lhs {
@@ -430,8 +456,9 @@ func (r *rewriter) rewriteSelect(s *ast.SelectStmt) {
 	}
 	// keep the statement terminating when the select was (all clauses return)
 	r.add(r.off(s.Body.Rbrace), r.off(s.Body.Rbrace), "default: panic(\"vrt: bad select index\"); ")
+	r.add(r.off(s.Body.Rbrace)+1, r.off(s.Body.Rbrace)+1, " }")
 	r.add(r.off(s.Pos()), r.off(s.Body.Lbrace)+1,
-		fmt.Sprintf("switch %s := vrt__.Select(%q, %s%s); %s.Idx {", name, r.pos(s.Pos()), hd, prefixEach(caseArgs), name))
+		fmt.Sprintf("{ %sswitch %s := vrt__.Select(%q, %s%s); %s.Idx {", strings.Join(hoisted, ""), name, r.pos(s.Pos()), hd, prefixEach(caseArgs), name))
 }
 
 func prefixEach(a []string) string {
